@@ -137,6 +137,20 @@ def notification(P, R):
                 kinds.append('typed: parsed value differs')
             if is_var(l) and op == '!=' and const_of(rr) == 0:
                 defs = sv.local_defs(l['name'])
+                # only the assignments that can still be in force at the call
+                def on_event(st, t, v=l['name']):
+                    e2 = t.ev
+                    if (e2['k'] == 'store' and is_var(e2.get('lhs'), v)) or (e2['k'] == 'decl' and e2.get('var') == v):
+                        return t.key
+                    return st
+                before = sv.forward('', on_event, None)[0]
+                live = set(before.get(s.key, ()))
+                if live and '' not in live:
+                    defs = [d for d in defs if d.key in live]
+                if any(isinstance(x, dict) and x.get('k') == 'callref' and x.get('callee') == 'memcmp' and any(on_path(a, 'parsed') for a in x['args']) for d in defs for x in walk(d.ev.get('rhs') or d.ev.get('init') or {})) \
+                        and len(defs) == 1:
+                    kinds.append('reverted: the remembered value differs from "no value"')
+                    continue
                 texts = [sx(d.ev.get('rhs') or d.ev.get('init')) for d in defs]
                 if any('strcmp(' in t and 'strcasecmp(' not in t and 'strncmp(' not in t for t in texts):
                     # ... and it compares the node's new text with the text it remembers (parsed.p_string), not with itself
@@ -431,6 +445,96 @@ def defaults_at_registration(P, R, rule='C15.MPT.8'):
             R.ob(rule, ok, s, '%s records the default def_%s of %s and establishes the live %s before returning (unconditionally, or unless it already has a value)' % (f.name, live, base, live),
                  key='default-applied:%s:%s' % (f.name, live))
     R.floor(rule, 5, 'defaults recorded by registration functions')
+
+def live_notifications(P, R, rule='C15.GRD.5'):
+    """No notification is dead code: every call through a node's hook can be reached along a path whose pointer tests
+    do not contradict each other.  (A snapshot `orig = node->value` tested for "there was a value" inside the arm that
+    is entered only when node->value was already NULL is such a contradiction: the consumer of a text with no default
+    never heard that the text went away.)  A forward nullness analysis over each function with hook calls: facts
+    "expression is / is not NULL" from the branch conditions, copied through `local = expression` snapshots, dropped
+    at stores and (for non-locals) at calls."""
+    n = 0
+    for f in sorted({s.fn for s in hook_calls(P)}, key=lambda g: g.name):
+        def strip(e):
+            while isinstance(e, dict) and e.get('k') == 'cast':
+                e = e.get('e')
+            return e
+
+        def forget(st, L, calls=False):
+            out = set()
+            for it in st:
+                if it[0] == 'n':
+                    x = it[1]
+                    if x == L or x.startswith(L + '->') or x.startswith(L + '.') or x.startswith(L + '['):
+                        continue
+                    if calls and ('->' in x or '.' in x or '[' in x or '*' in x):
+                        continue
+                    out.add(it)
+                else:
+                    _, v, E = it
+                    if v == L or E == L or E.startswith(L + '->') or E.startswith(L + '.'):
+                        continue
+                    if calls:
+                        continue
+                    out.add(it)
+            return out
+
+        def on_event(st, t):
+            ev = t.ev
+            if ev['k'] == 'call':
+                return frozenset(forget(st, '\0', calls=True))
+            lhs = rhs = None
+            if ev['k'] == 'store':
+                lhs, rhs = ev.get('lhs'), ev.get('rhs') if ev.get('op') == '=' else None
+                L = sx(lhs)
+            elif ev['k'] == 'decl' and ev.get('var'):
+                L, rhs = ev['var'], ev.get('init')
+            else:
+                return st
+            cur = forget(st, L)
+            rhs = strip(rhs)
+            if isinstance(rhs, dict):
+                c = const_of(rhs)
+                E = sx(rhs)
+                if c == 0:
+                    cur.add(('n', L, True))
+                elif rhs.get('k') in ('var', 'mem') and L != E:
+                    for it in st:
+                        if it[0] == 'n' and it[1] == E:
+                            cur.add(('n', L, it[2]))
+                    if '->' not in L and '.' not in L and not E.startswith(L):
+                        cur.add(('a', L, E))
+            return frozenset(cur)
+
+        def on_edge(st, e):
+            if e.cond is None or e.label in ('case', 'default'):
+                return st
+            r = e.rel()
+            if not r or const_of(r[2]) != 0 or r[1] not in ('==', '!='):
+                return st
+            l = strip(r[0])
+            if not (isinstance(l, dict) and l.get('k') in ('var', 'mem')):
+                return st
+            key, isnull = sx(l), r[1] == '=='
+            keys = {key}
+            for it in st:
+                if it[0] == 'a':
+                    if it[2] == key:
+                        keys.add(it[1])
+                    if it[1] == key:
+                        keys.add(it[2])
+            cur = set(st)
+            for k in keys:
+                if ('n', k, not isnull) in st:
+                    return None
+                cur.add(('n', k, isnull))
+            return frozenset(cur)
+        before = f.forward(frozenset(), on_event, on_edge)[0]
+        for s in [t for t in hook_calls(P) if t.fn is f]:
+            n += 1
+            R.ob(rule, bool(before.get(s.key)), s, 'the hook call in %s can be reached: the pointer tests on the way to it do not contradict each other' % f.name,
+                 key='live:%s' % f.name)
+    R.floor(rule, 5, 'hook call sites')
 
 def zero_defaults(P, R, rule='C15.TAB.2'):
     """Nodes made by the parser are zero-filled and never given a subtype (only registration assigns one): the
@@ -741,6 +845,7 @@ def run(P, R, tier):
     zero_defaults(P, R)
     alias_established(P, R)
     defaults_at_registration(P, R)
+    live_notifications(P, R)
     rules.vector_walks(P, R, 'C15.BND.2', units=('src/config.c', 'src/common.c'))
     R.floor('C15.BND.2', 3, 'vector walks in the configuration code')
     exhaustive(P, R)
